@@ -3,6 +3,7 @@ package byz
 import (
 	"fmt"
 	"math/rand/v2"
+	"os"
 	"sort"
 	"strings"
 	"sync"
@@ -40,6 +41,7 @@ type clusterCase struct {
 	JitterUS      int             `json:"jitter_us"`
 	Special       string          `json:"special,omitempty"`
 	InitialTarget byte            `json:"initial_target_first_byte"`
+	FreshGap      int             `json:"fresh_checkpoint_gap,omitempty"`
 }
 
 var c12Lens = []int{0, 1, 2, 9, 10, 11, 12, 16, 24, 40}
@@ -66,7 +68,7 @@ func runC12(r *mon.Run, replay string) {
 	}
 
 	n := r.Pick(40, 600)
-	workers := r.Pick(8, 10)
+	workers := r.Pick(12, 12)
 	parallel(n, workers, func(i int) {
 		special := ""
 		switch i % 10 {
@@ -76,16 +78,73 @@ func runC12(r *mon.Run, replay string) {
 			special = "checkpoint"
 		case 7: // some nodes serve at most 7 or 1 blocks per request
 			special = "smallbatch"
+		case 9: // a freshly checkpoint-bootstrapped node (no blocks above the checkpoint) joins full nodes
+			special = "freshcp"
+		}
+		if only := os.Getenv("VERIF_C12_ONLY"); only != "" && only != special {
+			return // development filter (never set by ./check users)
 		}
 		runCluster(r, uint64(1000+i), special)
 	})
+	if os.Getenv("VERIF_C12_ONLY") != "" {
+		r.Inconclusive("development filter VERIF_C12_ONLY is set")
+	}
 	r.Floor("clusters_converged", int64(n*8/10))
 	r.Floor("manager_calls_audited:AddBlocks", 20)
 	r.Floor("manager_calls_audited:AddValidatedV2Blocks", 5)
 	r.Floor("reorgs_observed", 10)
 }
 
+var c12FreshGaps = []int{3, 9, 10, 11, 12, 13, 14, 15, 16, 20, 23, 24, 40}
+
+// genFreshCheckpoint: one or two full nodes at the tip and one node that was
+// just initialised at a checkpoint `gap` blocks below (TestInstantSync's
+// situation with other gaps).
+func genFreshCheckpoint(r *mon.Run, stream uint64) (clusterCase, *chainlab.Tree, []*chainlab.Node, []*chainlab.Node) {
+	rng := r.RNG(stream)
+	regime := []string{"mix", "v2only"}[rng.IntN(2)]
+	p := chainlab.RandomParams(regime, rng)
+	env := chainlab.NewEnv(p)
+	itarget := []byte{0x08, 0x10, 0x40, 0xFF}[rng.IntN(4)]
+	env.Net.InitialTarget = types.BlockID{itarget}
+	t := chainlab.NewTree(env, rng)
+	prof := chainlab.Profile{MaxTxns: 3}
+	gap := c12FreshGaps[rng.IntN(len(c12FreshGaps))]
+	cc := clusterCase{Stream: stream, Regime: regime, Params: p, Special: "freshcp", InitialTarget: itarget, FreshGap: gap}
+	cc.TrunkLen = int(p.Require) + 2 + rng.IntN(10) + gap
+	w := p2plab.GrowMixed(t, t.Root, cc.TrunkLen, 2, prof)
+	cp := w.Ancestor(w.Height - uint64(gap))
+	cc.N = 2 + rng.IntN(2)
+	tips := []*chainlab.Node{w, cp}
+	cps := []*chainlab.Node{nil, cp}
+	if cc.N == 3 {
+		tips = append(tips, w.Ancestor(w.Height-uint64(rng.IntN(3))))
+		cps = append(cps, nil)
+	}
+	cc.Winner, cc.Cap, cc.Topology = 0, 8, "line"
+	perm := rng.Perm(cc.N)
+	for i := 0; i+1 < cc.N; i++ {
+		a, b := perm[i], perm[i+1]
+		if rng.IntN(2) == 0 {
+			a, b = b, a
+		}
+		cc.Edges = append(cc.Edges, [2]int{a, b})
+	}
+	// the fresh node must be adjacent to a full node
+	for i := 0; i < cc.N; i++ {
+		bd := branchDesc{Node: i, ForkHeight: tips[i].Height, TipHeight: tips[i].Height, TipNode: tips[i].Idx, Checkpoint: -1, MaxSend: 100}
+		if cps[i] != nil {
+			bd.Checkpoint = int64(cps[i].Height)
+		}
+		cc.Branches = append(cc.Branches, bd)
+	}
+	return cc, t, tips, cps
+}
+
 func genCluster(r *mon.Run, stream uint64, special string) (clusterCase, *chainlab.Tree, []*chainlab.Node, []*chainlab.Node) {
+	if special == "freshcp" {
+		return genFreshCheckpoint(r, stream)
+	}
 	rng := r.RNG(stream)
 	regime := []string{"mix", "mix", "v2only", "v1only"}[rng.IntN(4)]
 	p := chainlab.RandomParams(regime, rng)
@@ -341,7 +400,9 @@ func runCluster(r *mon.Run, stream uint64, special string) {
 				}
 			}
 		}
-		if iter%20 == 0 {
+		// (clusters with a freshly bootstrapped checkpoint node get no help: an
+		// honest node dropping an honest peer is exactly what is under test there)
+		if iter%20 == 0 && cc.Special != "freshcp" {
 			for _, e := range cc.Edges {
 				a, b := nodes[e[0]], nodes[e[1]]
 				if !a.HasPeer(b.Addr) && !b.HasPeer(a.Addr) {
@@ -414,6 +475,18 @@ func runCluster(r *mon.Run, stream uint64, special string) {
 	if cc.Discovery {
 		r.Count("clusters_with_discovery", 1)
 	}
+	if cc.Special == "freshcp" {
+		r.Count("clusters_with_fresh_checkpoint_node", 1)
+		r.SetAdd("fresh_checkpoint_gaps", fmt.Sprint(cc.FreshGap))
+		if converged {
+			r.SetAdd("fresh_checkpoint_gaps_converged", fmt.Sprint(cc.FreshGap))
+		}
+		var rd int64
+		for _, n := range nodes {
+			rd += n.Reconnects.Load()
+		}
+		fmt.Printf("note: C12 freshcp stream=%d gap=%d n=%d converged=%v after %dms redials=%d edges=%v\n", stream, cc.FreshGap, cc.N, converged, convAt.Milliseconds(), rd, cc.Edges)
+	}
 	if cc.JitterUS > 0 {
 		r.Count("clusters_with_jitter", 1)
 	}
@@ -451,6 +524,8 @@ func runCluster(r *mon.Run, stream uint64, special string) {
 		vsig := "no-convergence-within-90s"
 		if cls := honestBanClass(nodes); cls != "" {
 			vsig += ":honest-peer-banned:" + cls
+		} else if cc.Special == "freshcp" {
+			vsig += ":fresh-checkpoint-node"
 		} else if small {
 			vsig += ":max-send-blocks-below-100"
 		}
@@ -479,7 +554,9 @@ func honestBanClass(nodes []*p2plab.Node) string {
 	}
 	var out []string
 	for c := range cls {
-		out = append(out, c)
+		if c != "subnet-strikes" || len(cls) == 1 {
+			out = append(out, c) // strikes are a consequence of the other bans
+		}
 	}
 	sort.Strings(out)
 	return strings.Join(out, "+")
